@@ -106,6 +106,8 @@ type Interp struct {
 	onCall func(cl *Closure, args []Value)
 	onRet  func(cl *Closure, args []Value, res []Value)
 	nilPanics bool
+	loopLabel   string // label attached to the loop/switch about to start
+	branchLabel string // label of a labelled break/continue in flight
 	defers    *[]deferred // deferred calls of the function being executed
 	templateData *Obj // the data object the template was executed on (set by the Execute model)
 }
@@ -339,7 +341,12 @@ func (it *Interp) exec(s ast.Stmt, env *Env) ctrl {
 		} else if x.Else != nil {
 			return it.exec(x.Else, e)
 		}
+	case *ast.LabeledStmt:
+		it.loopLabel = x.Label.Name
+		return it.exec(x.Stmt, env)
 	case *ast.ForStmt:
+		my := it.loopLabel
+		it.loopLabel = ""
 		e := newEnv(env)
 		if x.Init != nil {
 			it.exec(x.Init, e)
@@ -349,10 +356,12 @@ func (it *Interp) exec(s ast.Stmt, env *Env) ctrl {
 				break
 			}
 			c := it.execBlock(x.Body.List, newEnv(e))
-			if c == cBreak {
-				break
-			}
 			if c == cReturn {
+				return c
+			}
+			if act := it.loopCtl(c, my); act == 1 {
+				break
+			} else if act == 2 {
 				return c
 			}
 			if x.Post != nil {
@@ -383,7 +392,10 @@ func (it *Interp) exec(s ast.Stmt, env *Env) ctrl {
 		return cReturn
 	case *ast.BranchStmt:
 		if x.Label != nil {
-			it.fail(s, "labelled branch not modelled")
+			if x.Tok != token.BREAK && x.Tok != token.CONTINUE {
+				it.fail(s, "goto is not modelled")
+			}
+			it.branchLabel = x.Label.Name
 		}
 		switch x.Tok {
 		case token.BREAK:
@@ -436,7 +448,8 @@ func (it *Interp) assign(x *ast.AssignStmt, env *Env) {
 		}
 		lv := it.eval(x.Lhs[0], env)
 		rv := it.eval(x.Rhs[0], env)
-		op := map[token.Token]token.Token{token.ADD_ASSIGN: token.ADD, token.SUB_ASSIGN: token.SUB, token.MUL_ASSIGN: token.MUL, token.OR_ASSIGN: token.OR, token.AND_ASSIGN: token.AND}[x.Tok]
+		op := map[token.Token]token.Token{token.ADD_ASSIGN: token.ADD, token.SUB_ASSIGN: token.SUB, token.MUL_ASSIGN: token.MUL, token.OR_ASSIGN: token.OR, token.AND_ASSIGN: token.AND,
+			token.QUO_ASSIGN: token.QUO, token.REM_ASSIGN: token.REM, token.XOR_ASSIGN: token.XOR, token.SHL_ASSIGN: token.SHL, token.SHR_ASSIGN: token.SHR, token.AND_NOT_ASSIGN: token.AND_NOT}[x.Tok]
 		if op == 0 {
 			it.fail(x, "assignment operator %s not modelled", x.Tok)
 		}
@@ -585,7 +598,26 @@ func mapKey(v Value) any {
 	panic(undecided{fmt.Sprintf("map key of type %T not modelled", v)})
 }
 
+// loopCtl: what a loop does with the control signal of its body: 0 go on,
+// 1 leave this loop, 2 hand the signal to the enclosing loop (labelled branch
+// aimed at an outer statement).
+func (it *Interp) loopCtl(c ctrl, my string) int {
+	if c != cBreak && c != cContinue {
+		return 0
+	}
+	if it.branchLabel != "" && it.branchLabel != my {
+		return 2
+	}
+	it.branchLabel = ""
+	if c == cBreak {
+		return 1
+	}
+	return 0
+}
+
 func (it *Interp) execSwitch(x *ast.SwitchStmt, env *Env) ctrl {
+	my := it.loopLabel
+	it.loopLabel = ""
 	e := newEnv(env)
 	if x.Init != nil {
 		it.exec(x.Init, e)
@@ -630,6 +662,10 @@ func (it *Interp) execSwitch(x *ast.SwitchStmt, env *Env) ctrl {
 		case cFallthrough:
 			continue
 		case cBreak:
+			if it.branchLabel != "" && it.branchLabel != my {
+				return c
+			}
+			it.branchLabel = ""
 			return cNone
 		case cNone:
 			return cNone
@@ -686,6 +722,8 @@ func valuesEqual(a, b Value) bool {
 }
 
 func (it *Interp) execRange(x *ast.RangeStmt, env *Env) ctrl {
+	my := it.loopLabel
+	it.loopLabel = ""
 	coll := it.eval(x.X, env)
 	if p, ok := coll.(*Ptr); ok {
 		coll = p.cell.v // range over *[N]T
@@ -720,31 +758,40 @@ func (it *Interp) execRange(x *ast.RangeStmt, env *Env) ctrl {
 			elems = c.elems
 		}
 		for i, el := range elems {
-			switch body(int64(i), el) {
-			case cBreak:
-				return cNone
-			case cReturn:
+			c := body(int64(i), el)
+			if c == cReturn {
 				return cReturn
+			}
+			if act := it.loopCtl(c, my); act == 1 {
+				return cNone
+			} else if act == 2 {
+				return c
 			}
 		}
 	case int64:
 		if members, ok := it.sparseMembers(x, env, c); ok {
 			for _, i := range members {
-				switch body(int64(i), nil) {
-				case cBreak:
-					return cNone
-				case cReturn:
+				c := body(int64(i), nil)
+				if c == cReturn {
 					return cReturn
+				}
+				if act := it.loopCtl(c, my); act == 1 {
+					return cNone
+				} else if act == 2 {
+					return c
 				}
 			}
 			return cNone
 		}
 		for i := int64(0); i < c; i++ {
-			switch body(i, nil) {
-			case cBreak:
-				return cNone
-			case cReturn:
+			c := body(i, nil)
+			if c == cReturn {
 				return cReturn
+			}
+			if act := it.loopCtl(c, my); act == 1 {
+				return cNone
+			} else if act == 2 {
+				return c
 			}
 		}
 	case *Closure, *Native:
@@ -759,12 +806,16 @@ func (it *Interp) execRange(x *ast.RangeStmt, env *Env) ctrl {
 			if len(args) > 1 {
 				v = args[1]
 			}
-			switch body(k, v) {
-			case cBreak:
-				return []Value{false}
-			case cReturn:
+			c := body(k, v)
+			if c == cReturn {
 				result = cReturn
 				bodyRet = it.retVals
+				return []Value{false}
+			}
+			if act := it.loopCtl(c, my); act == 1 {
+				return []Value{false}
+			} else if act == 2 {
+				result = c
 				return []Value{false}
 			}
 			return []Value{true}
@@ -776,11 +827,14 @@ func (it *Interp) execRange(x *ast.RangeStmt, env *Env) ctrl {
 		return result
 	case string:
 		for i, r := range c {
-			switch body(int64(i), int64(r)) {
-			case cBreak:
-				return cNone
-			case cReturn:
+			c := body(int64(i), int64(r))
+			if c == cReturn {
 				return cReturn
+			}
+			if act := it.loopCtl(c, my); act == 1 {
+				return cNone
+			} else if act == 2 {
+				return c
 			}
 		}
 	case *MapV:
@@ -1151,6 +1205,10 @@ func (it *Interp) binop(at ast.Node, op token.Token, a, b Value) Value {
 			return x << uint(y)
 		case token.SHR:
 			return x >> uint(y)
+		case token.XOR:
+			return x ^ y
+		case token.AND_NOT:
+			return x &^ y
 		}
 	case string:
 		y, ok := b.(string)
@@ -1164,6 +1222,20 @@ func (it *Interp) binop(at ast.Node, op token.Token, a, b Value) Value {
 			return x < y
 		case token.GTR:
 			return x > y
+		case token.LEQ:
+			return x <= y
+		case token.GEQ:
+			return x >= y
+		}
+	case bool:
+		y, ok := b.(bool)
+		if ok {
+			switch op {
+			case token.LAND:
+				return x && y
+			case token.LOR:
+				return x || y
+			}
 		}
 	}
 	it.fail(at, "binary %s on %T,%T not modelled", op, a, b)
@@ -1613,6 +1685,54 @@ func (it *Interp) builtin(x *ast.CallExpr, name string, env *Env) Value {
 			return s
 		}
 		it.fail(x, "make of %s", t)
+	case "cap":
+		if s, ok := it.eval(x.Args[0], env).(*SliceV); ok {
+			return int64(lenOf(s))
+		}
+		return int64(0)
+	case "copy":
+		dst, _ := it.eval(x.Args[0], env).(*SliceV)
+		var n int
+		switch src := it.eval(x.Args[1], env).(type) {
+		case *SliceV:
+			if dst != nil && src != nil {
+				n = copy(dst.elems, src.elems)
+			}
+		case string:
+			for n < len(src) && dst != nil && n < len(dst.elems) {
+				dst.elems[n] = int64(src[n])
+				n++
+			}
+		}
+		return int64(n)
+	case "delete":
+		if m, ok := it.eval(x.Args[0], env).(*MapV); ok && m != nil {
+			delete(m.m, it.keyOf(x.Args[1], it.eval(x.Args[1], env)))
+		}
+		return nil
+	case "clear":
+		switch c := it.eval(x.Args[0], env).(type) {
+		case *MapV:
+			if c != nil {
+				c.m = map[any]Value{}
+			}
+		case *SliceV:
+			if c != nil {
+				t := it.info.Types[x.Args[0]].Type
+				for i := range c.elems {
+					if sl, ok := t.Underlying().(*types.Slice); ok {
+						c.elems[i] = it.zero(sl.Elem())
+					}
+				}
+			}
+		}
+		return nil
+	case "new":
+		t := it.info.Types[x.Args[0]].Type
+		if isStructType(t) {
+			return it.newObj(t)
+		}
+		return &Ptr{&Cell{it.zero(t)}}
 	case "panic":
 		it.fail(x, "the emitter panics on this model: %v", it.eval(x.Args[0], env))
 	case "min", "max":
